@@ -83,6 +83,7 @@ def file_externals(fs, store):
         return Obj("xmltree", {"root": fs[p]}, closed=True)
 
     def recreate(a, k):
+        store.clear()  # uproot.recreate truncates: histograms of an earlier export into the same file are gone
         return Obj("rootfile", {"file_path": pstr(a[0])}, closed=True)
 
     return {
@@ -137,7 +138,8 @@ def externals(store):
     def _import(a, k):
         name = a[3] if len(a) > 3 else k.get("name")
         if name not in store:
-            raise Undecided(f"the reader asks for histogram {name!r}, which the writer did not export")
+            from .alg import _PyRaise
+            raise _PyRaise("KeyError")  # the reader asks for a histogram the data file does not hold: uproot raises
         data = store[name]
         return (list(data), [Poly.atom(f"err<{name}>{j}") for j in range(len(data))])
 
